@@ -234,7 +234,7 @@ def concrete_structs(idx, ns, d):
 
 
 @st.composite
-def value_for(draw, idx, costs, t, fuel=3, wild=False, omit_callers=frozenset(), bias=None):
+def value_for(draw, idx, costs, t, fuel=3, wild=False, omit_callers=frozenset(), bias=None, exact_top=False):
     k = t[0]
     if k == 'prim':
         s = prim_value_strategy(t, wild=wild)
@@ -262,7 +262,7 @@ def value_for(draw, idx, costs, t, fuel=3, wild=False, omit_callers=frozenset(),
         return out
     d = idx.get(t[1], t[2])
     if d['k'] == 'struct':
-        cands = concrete_structs(idx, t[1], d)
+        cands = [(t[1], d)] if exact_top else concrete_structs(idx, t[1], d)
         cands = sorted(cands, key=lambda c: costs.cost[(c[0], c[1]['name'])])
         hot = [c for c in cands if bias and (c[0], c[1]['name']) in bias.get('subtypes', ())]
         if fuel <= 0:
